@@ -693,25 +693,31 @@ func (li LineItem) webVTTBytes(previous, next *LineItem) (c []byte) {
 		c = append(c, []byte("<c."+color+">")...)
 	}
 	if li.InlineStyle != nil {
-		for idx, tag := range li.InlineStyle.WebVTTTags {
-			if previous != nil && previous.InlineStyle != nil && len(previous.InlineStyle.WebVTTTags) > idx && tag.Name == previous.InlineStyle.WebVTTTags[idx].Name {
-				continue
-			}
-			c = append(c, []byte(tag.startTag())...)
+		for idx := li.webVTTTagsSharedWith(previous); idx < len(li.InlineStyle.WebVTTTags); idx++ {
+			c = append(c, []byte(li.InlineStyle.WebVTTTags[idx].startTag())...)
 		}
 	}
 	c = append(c, []byte(escapeHTML(li.Text))...)
 	if li.InlineStyle != nil {
-		for i := len(li.InlineStyle.WebVTTTags) - 1; i >= 0; i-- {
-			tag := li.InlineStyle.WebVTTTags[i]
-			if next != nil && next.InlineStyle != nil && len(next.InlineStyle.WebVTTTags) > i && tag.Name == next.InlineStyle.WebVTTTags[i].Name {
-				continue
-			}
-			c = append(c, []byte(tag.endTag())...)
+		for i := len(li.InlineStyle.WebVTTTags) - 1; i >= li.webVTTTagsSharedWith(next); i-- {
+			c = append(c, []byte(li.InlineStyle.WebVTTTags[i].endTag())...)
 		}
 	}
 	if color != "" {
 		c = append(c, []byte("</c>")...)
+	}
+	return
+}
+
+// webVTTTagsSharedWith returns how many of the outermost tags are identical (name, classes and
+// annotation) in a neighbouring item: only those can stay open between the two items.
+func (li LineItem) webVTTTagsSharedWith(neighbour *LineItem) (n int) {
+	if li.InlineStyle == nil || neighbour == nil || neighbour.InlineStyle == nil {
+		return
+	}
+	for n < len(li.InlineStyle.WebVTTTags) && n < len(neighbour.InlineStyle.WebVTTTags) &&
+		li.InlineStyle.WebVTTTags[n].startTag() == neighbour.InlineStyle.WebVTTTags[n].startTag() {
+		n++
 	}
 	return
 }
